@@ -12,11 +12,17 @@
 //     cluster (gossip-joined server.Commands, shards placed by the cluster's own hashing, remote
 //     nodes reached through the real HTTP internal client); the query is run through EVERY node as
 //     coordinator; the answers must all be equal (else `disagree:a/b/c` is printed) and equal the
-//     model's.
+//     model's;
+//   - `clf <nodes> <replicas> <failing node> <op> … <one group>`: as `cl`, with replicas >= 2 and
+//     one non-coordinator node that stays in the ring but whose remote queries all fail (hook
+//     VerifC17FailRemoteQueries on every coordinator's executor client): mapReduce's failover path
+//     regroups the failed node's shards onto the other replicas; the query is run through every
+//     other node as coordinator. The model answer is computed by the failover transition system.
 package main
 
 import (
 	"context"
+	"crypto/sha1"
 	"fmt"
 	"os"
 	"sort"
@@ -35,7 +41,7 @@ type prop struct {
 	cl  *srv2.Cluster
 	clN int
 	clR int
-	idx int
+	try int
 }
 
 func (p *prop) Rule() string {
@@ -103,6 +109,9 @@ func genRow(r *vh.Rng) string {
 	return strings.Join(segs, "+")
 }
 
+// bigSingle: executor lines over more shards (failover lines: the failing node should own some).
+var bigSingle bool
+
 func genGroups(r *vh.Rng, single bool, item func(*vh.Rng, int) string) (string, int) {
 	ng := r.Range(1, 3)
 	if single {
@@ -114,6 +123,9 @@ func genGroups(r *vh.Rng, single bool, item func(*vh.Rng, int) string) (string, 
 		n := r.Range(0, 4)
 		if single {
 			n = r.Range(1, 4)
+			if bigSingle {
+				n = r.Range(3, 8)
+			}
 		}
 		var items []string
 		for i := 0; i < n; i++ {
@@ -140,9 +152,9 @@ func (p *prop) Gen(r *vh.Rng, tier string, n int) []vh.Case {
 		// Lines that run the real executor cost ~0.1-0.2 s each (index + fragments on disk), a
 		// reducer-level line costs microseconds: the quick tier keeps the former to a few dozen per
 		// stream and cluster lines to a handful; the thorough tier runs many more of both.
-		e2eDen, clDen := 20, 250
+		e2eDen, clDen, clfDen := 20, 250, 150
 		if tier == "thorough" {
-			e2eDen, clDen = 15, 60
+			e2eDen, clDen, clfDen = 15, 60, 60
 		}
 		mode := ""
 		switch {
@@ -150,8 +162,12 @@ func (p *prop) Gen(r *vh.Rng, tier string, n int) []vh.Case {
 			mode = "e2e"
 		case cr.Chance(1, clDen):
 			mode = "cl"
+		case clR >= 2 && cr.Chance(1, clfDen):
+			// failover lines only in streams whose cluster has replicas (no second cluster shape)
+			mode = "clf"
 		}
 		real := mode != ""
+		bigSingle = mode == "clf"
 		var line string
 		var total int
 		// the MinRow/MaxRow and bool reducers are closures inside the executor, so `pair` and `bool`
@@ -226,7 +242,7 @@ func (p *prop) Gen(r *vh.Rng, tier string, n int) []vh.Case {
 				line = "rows " + g
 			}
 		case 7:
-			if mode == "cl" {
+			if mode == "cl" || mode == "clf" {
 				mode = "e2e" // ClearRow is a write: one coordinator only
 			}
 			var g string
@@ -240,6 +256,8 @@ func (p *prop) Gen(r *vh.Rng, tier string, n int) []vh.Case {
 			}
 		case "cl":
 			line = fmt.Sprintf("cl %d %d %s", clN, clR, line)
+		case "clf":
+			line = fmt.Sprintf("clf %d %d %d %s", clN, clR, cr.Range(1, clN-1), line)
 		}
 		cases = append(cases, vh.Case{Lines: []string{line}, Nontrivial: total >= 2})
 	}
@@ -430,7 +448,7 @@ func (p *prop) cluster(n, r int) (backend, error) {
 		p.cl = nil
 		return p.cluster(n, r)
 	}
-	return clusterBE{p.cl}, nil
+	return clusterBE{c: p.cl}, nil
 }
 
 func (p *prop) execLine(l string) string {
@@ -439,13 +457,13 @@ func (p *prop) execLine(l string) string {
 		return "bad-op"
 	}
 	if ws[0] == "e2e" {
-		if len(ws) > 1 && (ws[1] == "e2e" || ws[1] == "cl") {
+		if len(ws) > 1 && (ws[1] == "e2e" || ws[1] == "cl" || ws[1] == "clf") {
 			return "bad-op"
 		}
 		return p.execE2E(ws[1:], p.single())
 	}
 	if ws[0] == "cl" {
-		if len(ws) < 4 || ws[3] == "e2e" || ws[3] == "cl" {
+		if len(ws) < 4 || ws[3] == "e2e" || ws[3] == "cl" || ws[3] == "clf" {
 			return "bad-op"
 		}
 		n, err1 := strconv.Atoi(ws[1])
@@ -458,6 +476,24 @@ func (p *prop) execLine(l string) string {
 			return "err:cluster-start"
 		}
 		return p.execE2E(ws[3:], be)
+	}
+	if ws[0] == "clf" {
+		if len(ws) < 5 || ws[4] == "e2e" || ws[4] == "cl" || ws[4] == "clf" || ws[4] == "bool" {
+			return "bad-op"
+		}
+		n, err1 := strconv.Atoi(ws[1])
+		r, err2 := strconv.Atoi(ws[2])
+		fl, err3 := strconv.Atoi(ws[3])
+		if err1 != nil || err2 != nil || err3 != nil || n < 2 || n > 5 || r < 2 || r > n || fl < 1 || fl >= n {
+			return "bad-op"
+		}
+		be, err := p.cluster(n, r)
+		if err != nil {
+			return "err:cluster-start"
+		}
+		cb := be.(clusterBE)
+		cb.fail = fl
+		return p.execE2E(ws[4:], cb)
 	}
 	switch {
 	case ws[0] == "vc" && len(ws) == 3:
@@ -543,6 +579,11 @@ func (p *prop) execLine(l string) string {
 type backend interface {
 	API() *pilosa.API
 	N() int
+	// Coords lists the nodes a query is asked through.
+	Coords() []int
+	// Begin is called after the data is loaded and before the queries are asked; the returned
+	// function is called after the last query.
+	Begin() (end func())
 	Query(i int, index, q string, shards []uint64) ([]interface{}, error)
 	Recalc() error
 }
@@ -551,12 +592,53 @@ type singleBE struct{ s *srv.Server }
 
 func (b singleBE) API() *pilosa.API { return b.s.Command.API }
 func (b singleBE) N() int           { return 1 }
+func (b singleBE) Coords() []int    { return []int{0} }
+func (b singleBE) Begin() func()    { return func() {} }
 func (b singleBE) Query(_ int, index, q string, shards []uint64) ([]interface{}, error) {
 	return b.s.Query(index, q, shards)
 }
 func (b singleBE) Recalc() error { return b.s.Command.API.RecalculateCaches(context.Background()) }
 
-type clusterBE struct{ c *srv2.Cluster }
+// clusterBE: fail > 0 makes every remote query to node `fail` fail while queries are asked.
+type clusterBE struct {
+	c    *srv2.Cluster
+	fail int
+}
+
+func (b clusterBE) Coords() []int {
+	var cs []int
+	for i := range b.c.Nodes {
+		if b.fail == 0 || i != b.fail {
+			cs = append(cs, i)
+		}
+	}
+	return cs
+}
+
+func (b clusterBE) Begin() func() {
+	if b.fail == 0 {
+		return func() {}
+	}
+	id := b.c.Nodes[b.fail].API.Node().ID
+	var restores []func() int
+	for _, i := range b.Coords() {
+		restores = append(restores, pilosa.VerifC17FailRemoteQueries(b.c.Nodes[i].API, id))
+	}
+	return func() {
+		failed := 0
+		for _, r := range restores {
+			failed += r()
+		}
+		if failed > 0 {
+			vh.Count("clf-case-with-failed-remote-query")
+		} else {
+			vh.Count("clf-case-failing-node-not-asked")
+		}
+		for k := 0; k < failed; k++ {
+			vh.Count("clf-failed-remote-queries")
+		}
+	}
+}
 
 func (b clusterBE) API() *pilosa.API { return b.c.Nodes[0].API }
 func (b clusterBE) N() int           { return len(b.c.Nodes) }
@@ -576,11 +658,13 @@ func (b clusterBE) Recalc() error {
 // infrastructure error of the in-process cluster on a loaded machine, before any query is
 // asked) is retried on a fresh index; a query answer is never retried.
 func (p *prop) execE2E(ws []string, be backend) string {
+	p.try = 0
 	out := p.execE2EOnce(ws, be)
 	for try := 0; try < 3 && be.N() > 1 && (out == "err:create-index" || out == "err:create-field" || out == "err:load"); try++ {
 		vh.Count("cluster-setup-retry")
 		time.Sleep(200 * time.Millisecond)
 		p.cl.WaitNormal(30 * time.Second)
+		p.try++
 		out = p.execE2EOnce(ws, be)
 	}
 	return out
@@ -607,8 +691,14 @@ func (p *prop) execE2EOnce(ws []string, be backend) (out string) {
 		return "bad-op"
 	}
 	items := splitNE(gspec, ";")
-	p.idx++
-	index := fmt.Sprintf("i%d", p.idx)
+	// The index name is a function of the line (not of its position in the stream), so the
+	// cluster's shard placement — hashed from the index name — is the same when the line is
+	// replayed on its own.
+	h := sha1.Sum([]byte(strings.Join(ws, " ")))
+	index := fmt.Sprintf("i%x", h[:6])
+	if p.try > 0 {
+		index += fmt.Sprintf("r%d", p.try)
+	}
 	ctx := context.Background()
 	api := be.API()
 	if _, err := api.CreateIndex(ctx, index, pilosa.IndexOptions{TrackExistence: true}); err != nil {
@@ -633,12 +723,15 @@ func (p *prop) execE2EOnce(ws []string, be backend) (out string) {
 	}
 	// ask runs the query through every coordinator; all answers must agree.
 	ask := func(q string, shards []uint64, render func(res []interface{}) string) string {
-		outs := make([]string, be.N())
+		coords := be.Coords()
+		outs := make([]string, len(coords))
 		same := true
-		for i := range outs {
-			res, err := be.Query(i, index, q, shards)
+		end := be.Begin()
+		defer end()
+		for i, co := range coords {
+			res, err := be.Query(co, index, q, shards)
 			if err != nil {
-				fmt.Fprintln(os.Stderr, "c17: query via node", i, ":", err)
+				fmt.Fprintln(os.Stderr, "c17: query via node", co, ":", err)
 				outs[i] = "err:query"
 			} else {
 				outs[i] = vh.Guard("render", func() string { return render(res) })
